@@ -175,6 +175,19 @@ def load_known():
     return known, fixed
 
 
+def match_known(known, prop, *sigs):
+    import re  # pylint: disable=import-outside-toplevel
+    for k in known:
+        if k['property'] != prop:
+            continue
+        for sig in sigs:
+            if sig is None:
+                continue
+            if k.get('sig') == sig or (k.get('sig_re') and re.fullmatch(k['sig_re'], sig)):
+                return k
+    return None
+
+
 def run_checks(a):
     from sim.kernel import H  # pylint: disable=import-outside-toplevel
     from sim.registry import BUDGET, ENGINES  # pylint: disable=import-outside-toplevel
@@ -264,11 +277,17 @@ def run_checks(a):
     for sig, vs in sorted(by_sig.items()):
         cand = next((v for v in vs if 'raw' in v), None)
         if cand is None:
+            kf0 = match_known(known, a.prop, sig)
+            if kf0 is not None:
+                confirmed.append({'sig': sig, 'replay': None, 'count': len(vs), 'known': True,
+                                  'detail': vs[0]['violation']['detail'][:500]})
+                verdict_lines.append(f'KNOWN-FINDING: property={a.prop} {kf0["what"]} [sig={sig}; {len(vs)} runs]')
+                continue
             harness_errors.append({'error': f'violation {sig} has no raw replay'})
             continue
         with open(cand['raw']) as f:
             hs = json.load(f)['pythonhashseed']
-        kf0 = next((k for k in known if k['property'] == a.prop and k['sig'] == sig), None)
+        kf0 = match_known(known, a.prop, sig)
         if kf0 is not None:
             # a listed finding: no need to minimise it again on every run; keep the raw trace as replay
             keep = VERIF / 'replays' / f'{a.prop}-known-{cand["run_seed"]:016x}.json'
@@ -305,11 +324,11 @@ def run_checks(a):
                                             f'interpreter (rc={rc}): nondeterminism; file {minp}'})
             continue
         msig = json.loads(minp.read_text())['violation']['sig']
-        kf = next((k for k in known if k['property'] == a.prop and k['sig'] in (sig, msig)), None)
+        kf = match_known(known, a.prop, sig, msig)
         confirmed.append({'sig': sig, 'replay': str(minp), 'count': len(vs), 'known': bool(kf),
                           'detail': cand['violation']['detail'][:500]})
         if kf:
-            verdict_lines.append(f'KNOWN-FINDING: property={a.prop} {kf["what"]} [sig={kf["sig"]}; '
+            verdict_lines.append(f'KNOWN-FINDING: property={a.prop} {kf["what"]} [sig={sig}; '
                                  f'{len(vs)} runs; replay={minp}]')
         else:
             n_new += 1
@@ -401,7 +420,7 @@ def replay(a):
     if rc == 0:
         known, _ = load_known()
         sig = rp['violation']['sig']
-        kf = next((k for k in known if k['property'] == rp['property'] and k['sig'] == sig), None)
+        kf = match_known(known, rp['property'], sig)
         for v in out.get('violations', []):
             print(f'  {v["class"]}: {v["detail"][:600]}')
         if kf:
